@@ -7,6 +7,9 @@ CONSTANTS
   MaxStreamss = {1}
   NDg = 0
   DgCap = 1
+  DgReaders = 1
+  DgWakeAll = TRUE
+  FinishWakes = TRUE
   AllowReset = FALSE
   AllowStop = TRUE
   AllowLoss = FALSE
@@ -15,4 +18,4 @@ CONSTANTS
   Deviations = {}
 SPECIFICATION FairSpec
 INVARIANTS TypeOK
-PROPERTIES Termination BlockedWriterProceeds CloseCompletes
+PROPERTIES Termination EofArrives BlockedWriterProceeds CloseCompletes
